@@ -60,13 +60,17 @@ def obligations(tier, seed):
     obs = []
     klens = (1, 2, 3) if tier == "quick" else (1, 2, 3, 4)
     lens_list = [[2, 1, 1, 1], [5, 2, 1, 1]] if tier == "quick" else [[2, 1, 1, 1], [5, 2, 1, 1], [1, 3, 2, 1], [4, 1, 0, 0], [1, 0, 0, 0], [9, 1, 1, 1]]
+    from harness.c01 import _fits
     for scheme in PL.SCHEMES:
         for lens in lens_list:
+            if not _fits(scheme, {}, [x for x in lens if x]):
+                continue            # beyond the configured capacity: outside the property's domain
             for L in klens:
                 if scheme in ("CGKO06.SSE1", "CGKO06.SSE2") and L > 4:
                     continue
                 obs.append(ob("c02.%s.%s.k%d" % (scheme, "-".join(map(str, lens)), L), "harness.c02", "h_absent",
-                              {"scheme": scheme, "over": {}, "lens": lens, "klen": L, "seed": seed}, budget_s=300))
+                              {"scheme": scheme, "over": {}, "lens": lens, "klen": L, "seed": seed},
+                              budget_s=300 if tier == "quick" else 900, per_path_s=30 if tier == "quick" else 200))
     obs.append(twin("c02.twin", "harness.c02", "h_absent",
                     {"scheme": "CJJ14.PiBas", "over": {}, "lens": [1, 1, 1, 1], "klen": 2, "twin": True}))
     return obs
